@@ -1,7 +1,7 @@
 (* rename_literals is substitution of variables by variables; boolean_point_to_valuation pairs the sorted inputs
    with the point's values and refuses every other length. *)
-From BBF Require Import Base.Prelude Base.Names Base.Bits Spec.Sem Model.Expr Model.Table Model.LibBdd Model.Bdd Model.Prog Model.Iter Model.Extra
-     Proofs.ExprProofs.
+From BBF Require Import Base.Prelude Base.Names Base.Bits Spec.Sem Model.Expr Model.Table Model.LibBdd Model.Bdd Model.Prog Model.Iter Model.Render Model.Csv Model.Extra
+     Proofs.ExprProofs Proofs.CsvProofs.
 
 Lemma get_map_snd {X Y} (f : X -> Y) (m : list (name * X)) k :
   get (map (fun kv => (fst kv, f (snd kv))) m) k = option_map f (get m k).
@@ -59,4 +59,39 @@ Proof.
   unfold point_valuation, val_of_point. split; intros H.
   - rewrite H, Nat.eqb_refl. reflexivity.
   - apply Nat.eqb_neq in H. rewrite H. reflexivity.
+Qed.
+
+(* ---------- the name reported for a repeated header cell ---------- *)
+Lemma first_dup_Some : forall l seen x, first_dup seen l = Some x ->
+  exists pre post, l = pre ++ x :: post /\ (In x seen \/ In x pre) /\ first_dup seen pre = None.
+Proof.
+  induction l as [|y r IH]; intros seen x H; [discriminate|].
+  cbn [first_dup] in H. destruct (mem y seen) eqn:E.
+  - injection H as ->. exists [], r. split; [reflexivity|]. split; [left; apply mem_In; exact E|reflexivity].
+  - destruct (IH _ _ H) as (pre & post & -> & Hin & Hn).
+    exists (y :: pre), post. split; [reflexivity|]. split.
+    + destruct Hin as [[->|Hs]|Hp]; [right; left; reflexivity|left; exact Hs|right; right; exact Hp].
+    + cbn [first_dup]. rewrite E. exact Hn.
+Qed.
+
+Lemma dup_import rs x : dup_of_records rs = Some x -> import_records rs = Err E_DuplicateVariableName.
+Proof.
+  unfold dup_of_records, import_records. destruct (header_and_data rs) as [[[h f] r]|c|c]; try discriminate.
+  destruct h; [|discriminate]. intros H. cbn [bind]. rewrite H. reflexivity.
+Qed.
+
+Lemma dup_is_first_repeat rs x : dup_of_records rs = Some x ->
+  exists hdr rest pre post, header_and_data rs = Ok (true, hdr, rest) /\
+    removelast hdr = pre ++ x :: post /\ In x pre /\ NoDup pre.
+Proof.
+  unfold dup_of_records. destruct (header_and_data rs) as [[[h f] r]|c|c] eqn:E; try discriminate.
+  destruct h; [|discriminate]. intros H.
+  destruct (first_dup_Some _ _ _ H) as (pre & post & Hl & [[]|Hin] & Hn).
+  exists f, r, pre, post. split; [reflexivity|]. split; [exact Hl|]. split; [exact Hin|].
+  apply (first_dup_None _ _ Hn).
+Qed.
+
+Lemma dup_string s x : csv_duplicate_name s = Some x -> from_csv_string s = Err E_DuplicateVariableName.
+Proof.
+  unfold csv_duplicate_name, from_csv_string. destruct s; [discriminate|]. apply dup_import.
 Qed.
